@@ -1140,7 +1140,7 @@ class Mps(MatrixProduct):
             self.evolve_config.tdvp_cmf_c_trapz = False
             self.evolve_config.adaptive = False
             # `evolve_dt` was made real above: hand the half step on in imaginary time again
-            environ_mps = self.evolve(mpo, -1j * evolve_dt / 2 if imag_time else evolve_dt / 2)
+            environ_mps = self.evolve(mpo, -1j * evolve_dt / 2 if imag_time else evolve_dt / 2, normalize=False)
             self.evolve_config = orig_config
         else:
             # mps at t=0 as environment
